@@ -39,3 +39,9 @@ META.update({
    text="Every yield is checked against the deliveries that had begun; every raw record is compared byte-for-byte with the witness copy of the same delivery and checked for duplication and per-signal delivery order; bursts exceed the 5-slot buffer.",
    note="count bound uses all brackets of the signal since add_signal was called (sound upper bound)"),
 })
+META.update({
+ "C11": dict(engine="native", category="fault_enumeration",
+   technique="failpoint sweep: consumer (or closer) paused at each iterator hook site while close() runs on another thread; stable-stuck-state probe; callback-consultation log per poll_signal call",
+   text="Every (front-end, site, occurrence, delivery) point is run deterministically and a few hundred random-timing trials on top; is_closed is checked on every clone, the consumer must end (forever stays ended, wait never blocks again), and each Pending result must have been preceded in the same call by a callback consultation answering 'nothing'.",
+   note="instants = hook sites x both orders + random; the harness plays the async adapter"),
+})
